@@ -6,7 +6,8 @@ LEVEL = ('Per-level function contracts on the real walker of cif.c, each functio
          '(modular), loops over handle arrays and the item chain closed by invariants, recursion through --enforce-contract-rec. Ghost monitors '
          'carried by the handler stubs and callee contracts decide: no callback after END/error, no sibling after SKIP_SIBLINGS, every child '
          'walked once in order when nobody skips, start before children before end, result-code protocol, every handle released.')
-UNDECIDED = ['that the getters (cif_get_all_blocks, cif_container_get_all_frames/loops, cif_loop_get_packets, cif_pktitr_next_packet) '
+UNDECIDED = ['nesting depth of save frames below the ghost limit g_depth_limit < 1000000 (the recursion adds 1 per level)',
+             'that the getters (cif_get_all_blocks, cif_container_get_all_frames/loops, cif_loop_get_packets, cif_pktitr_next_packet) '
              'enumerate exactly what is stored (SQL; assumed contracts)',
              'end callback of an element whose start answered other than CONTINUE or whose children were cut short: not constrained (DESIGN 5/C14)']
 GETTERS = 'assumed contracts for cif_get_all_blocks / cif_container_get_all_frames / cif_container_get_all_loops / cif_loop_get_packets / ' \
@@ -54,7 +55,7 @@ def jobs():
     ]
 
 
-PENDING = ('walk_container',)   # under development: not part of the registered check until they discharge
+PENDING = ()   # under development: not part of the registered check until they discharge
 
 
 def check(tier):
